@@ -294,8 +294,66 @@ class Recorder:
         self._saved = []
 
 
+def engine_views(eng):
+    """None if the engine's four views describe the same set of positioned residues, else a short description"""
+    fin = set(int(g) for g in np.where(np.isfinite(eng.positions[:, 0]))[0])
+    flat = [int(g) for d in eng.defined_idxs for g in d]
+    if len(flat) != len(set(flat)):
+        return "an index is listed twice in the index lists"
+    if set(flat) != fin:
+        return "index lists and position table differ: only listed %s, only positioned %s" % (sorted(set(flat) - fin)[:5], sorted(fin - set(flat))[:5])
+    if set(int(g) for g in eng.gndx_to_tree) != fin:
+        return "node -> tree map and position table differ"
+    if len(eng.position_trees) != len(eng.defined_idxs):
+        return "%d trees, %d index lists" % (len(eng.position_trees), len(eng.defined_idxs))
+    for t, (tree, d) in enumerate(zip(eng.position_trees, eng.defined_idxs)):
+        data = np.asarray(tree.data).reshape(-1, 3)
+        if len(data) != len(d):
+            return "tree %d holds %d points, its index list %d" % (t, len(data), len(d))
+        if len(d) and not np.array_equal(data, eng.positions[d]):
+            return "tree %d holds points that are not the current positions of its index list" % t
+        for g in d:
+            if eng.gndx_to_tree[g] != t:
+                return "node %d is listed in tree %d but mapped to tree %d" % (g, t, eng.gndx_to_tree[g])
+    return None
+
+
+def anchor_monitor(rec, ev):
+    """C17, numeric part of GrowFromPositioned: an accepted placement sits exactly one step (step factor x pair size, minimum image) from
+    the position its neighbour has NOW in the engine - not from a position the neighbour had before a rewind took it back.  Independent of
+    the walk's own bookkeeping: both positions are read from the engine table after the call."""
+    if rec.engine is not None and ev["ev"] in ("rewind", "cleanup", "handled", "finish", "end"):
+        # "removed from the system" means removed from every view the engine keeps (C16's Views on the real engine at the moments C17
+        # talks about): position table, index lists, node -> tree map and the search trees themselves
+        bad = engine_views(rec.engine)
+        ev.setdefault("obs", {})["views"] = bad is None
+        if bad:
+            ev.setdefault("raw", {})["views"] = bad
+    if ev["ev"] != "ok" or rec.engine is None or rec.cur.get("rw") is None:
+        return
+    eng, mi = rec.engine, ev["mol"] - 1
+    try:
+        gc, gp = eng.nodes_to_gndx[(mi, ev["cur"] - 1)], eng.nodes_to_gndx[(mi, ev["prev"] - 1)]
+    except KeyError:
+        return
+    p, q = np.asarray(eng.positions[gc], float), np.asarray(eng.positions[gp], float)
+    if not (np.all(np.isfinite(p)) and np.all(np.isfinite(q))):
+        ev.setdefault("obs", {})["anchored"] = False
+        ev.setdefault("raw", {})["anchor"] = "unpositioned"
+        return
+    box = np.asarray(eng.boxsize, float)
+    d = p - q
+    d -= box * np.round(d / box)
+    step = float(rec.cur["rw"].step_fudge) * float(eng.interaction_matrix[frozenset([eng.atypes[gc], eng.atypes[gp]])][0])
+    dist = float(np.linalg.norm(d))
+    ev.setdefault("obs", {})["anchored"] = bool(abs(dist - step) <= 1e-6)
+    ev.setdefault("raw", {}).update({"anchor_dist": dist, "anchor_step": step})
+
+
 @contextlib.contextmanager
 def recording(script=None, maxiter=None, monitor=None, chooser=None):
+    if monitor is None:
+        monitor = anchor_monitor
     rec = Recorder(script, maxiter, monitor, chooser).install()
     try:
         yield rec
